@@ -38,7 +38,7 @@ def eta_recipes():
     )
 
 
-THETAS = st.one_of(st.sampled_from([0.5, 0.6, 0.9]), st.floats(0.01, 0.99))
+THETAS = st.one_of(st.sampled_from([0.5, 0.6, 0.9]), st.floats(0.01, 0.99), st.sampled_from([1e-3, 1e-6, 0.999, 0.9999999, 0.25, 0.75]))
 
 
 def ops(allow=('t', 'x', 'tx', 'unif', 'unifx', 'iso', 'aniso', 'grade'), time_bias=0.5):
